@@ -44,6 +44,8 @@ type SimNet struct {
 	Tap func(l *Link, side int, b []byte)
 
 	nextEphemeral int
+	started       int
+	equalCreation bool
 }
 
 type simAddr string
@@ -547,6 +549,8 @@ type NetNodeOptions struct {
 	Port           uint16
 	Flags          gen.NetworkFlags
 	Mod            func(o *gen.NodeOptions)
+	// SameSecond: do not let simulated time pass before this node starts
+	SameSecond bool
 }
 
 // StartNetNode starts a real node with networking enabled over the simulated network.
@@ -555,6 +559,21 @@ func StartNetNode(e *Env, sn *SimNet, o NetNodeOptions) gen.Node {
 		o.Port = 15000
 	}
 	host := o.Name[strings.Index(o.Name, "@")+1:]
+	// the incarnation number of a node ("creation") is its start time in seconds: nodes of one run
+	// must not all start within the same simulated second, or every mix-up between the local and
+	// the peer's creation goes unnoticed. One run in four keeps them equal.
+	sn.mu.Lock()
+	sn.started++
+	k, equal := sn.started, sn.equalCreation
+	if k == 1 {
+		sn.equalCreation = sn.rng.Intn(4) == 0
+		equal = sn.equalCreation
+	}
+	sn.mu.Unlock()
+	if k > 1 && !equal && !o.SameSecond {
+		e.Sleep(time.Duration(1000+sn.rng.Intn(2500)) * time.Millisecond)
+		e.Probe("nodes-with-different-creation")
+	}
 	return StartLocalNode(e, o.Name, func(no *gen.NodeOptions) {
 		no.Network.Mode = gen.NetworkModeEnabled
 		no.Network.Cookie = o.Cookie
